@@ -462,23 +462,25 @@ Proof.
   split; [apply trock_le_Tmax; [assumption|lra]|exact Hdc].
 Qed.
 
-(* with a reservoir depth in the input file the result is the property's right-hand side *)
-Theorem bht_meets_spec_partial i km : input_ok i -> bi_depth_km i = Some km ->
+(* the result is the property's right-hand side, with or without a Reservoir Depth line in the input file *)
+Theorem bht_meets_spec i : input_ok i ->
   exists T d, bht_of_input i = Good (T, d) /\ T == bht_spec i.
 Proof.
-  intros Hok Hkm. destruct (bht_of_input_correct i Hok) as [Hwf [T [d [Hc [HT _]]]]].
+  intros Hok. destruct (bht_of_input_correct i Hok) as [Hwf [T [d [Hc [HT _]]]]].
   exists T, d. split; [exact Hc|]. rewrite HT. unfold bht_spec. cbv zeta.
-  destruct Hok as [_ [_ [_ [Hd _]]]]. rewrite Hkm in *. cbn [depth_metres depth_denoted_metres].
-  rewrite Tprofile_eq_integral; [reflexivity|apply (wf_thick_nonneg _ _ Hwf)|lra].
+  destruct Hok as [_ [_ [_ [Hd _]]]].
+  change (depth_denoted_metres (bi_depth_km i)) with (depth_metres (bi_depth_km i)).
+  rewrite Tprofile_eq_integral; [reflexivity|apply (wf_thick_nonneg _ _ Hwf)|].
+  unfold depth_metres, default_depth. destruct (bi_depth_km i); lra.
 Qed.
 
-(* without it the pinned code walks down 3 m instead of the 3 km the default denotes *)
+(* the pinned tree (before fix a8610e4) walked down 3 m instead of the 3 km the default denotes *)
 Definition default_depth_witness : bht_input :=
   {| bi_n := 1; bi_Ts := 15; bi_Tmax := 400; bi_depth_km := None; bi_grad := [Some 50]; bi_thick := [] |}.
 
-Theorem bht_default_depth_refuted :
+Theorem bht_default_depth_pinned_refuted :
   exists i, input_ok i /\ bi_depth_km i = None /\
-            exists T d, bht_of_input i = Good (T, d) /\ ~ T == bht_spec i.
+            exists T d, bht_of_input_pinned i = Good (T, d) /\ ~ T == bht_spec i.
 Proof.
   exists default_depth_witness. split.
   - unfold input_ok, default_depth_witness, prefill, user_pos. cbn. repeat split; try lia; try lra.
